@@ -150,8 +150,23 @@ def r06_3(chk, drv, site, cut, label):
         seq = next(iter(seqs))
         vals = [i for k, i in seq if k == 'vals']
         vecs = [i for k, i in seq if k == 'vecs']
-        ok = vals == vecs and len(vals) == 2
-        # the sort index is computed from the values it permutes; the mask from the permuted values
+        # every index array applied to the values is applied to the vectors, in the same order (one fancy index that sorts and
+        # filters at once is as good as a permutation followed by a mask); at least one of them comes out of a sort
+        from .symval import Flow
+        fl = getattr(drv, '_flow', None)
+        if fl is None:
+            fl = Flow(drv.fn, limit=4)
+            fl.run()
+            drv._flow = fl
+        sorts = False
+        for n in ast.walk(drv.fn):
+            if isinstance(n, ast.Assign) and isinstance(n.targets[0], ast.Name) and n.targets[0].id == 'eigvals':
+                m = re.match(r'^eigvals\[(\w+)\]$', norm(n.value))
+                if m:
+                    vs = fl.snap.get(id(n), {}).get(m.group(1), set())
+                    if any('lexsort(' in v or 'argsort(' in v for v in vs):
+                        sorts = True
+        ok = vals == vecs and len(vals) >= 1 and sorts
     chk.ob('R06.3', ok, drv.rel, drv.fname, label + ' one permutation and one mask for values and vectors', line=site['line'],
            expected='eigvals[i] and eigvecs[:, i] with the same index arrays, in the same order', got=got,
            sample='%s %s: %s' % (drv.fname, label, got))
